@@ -440,6 +440,11 @@ def r07e(model, ctx):
     src = g.nodes(lambda s: isinstance(s, ast.Assign) and unparse(s.targets[0]) in ("res['src']", 'res["src"]'))
     upd = g.nodes_with(lambda n: isinstance(n, ast.Call) and unparse(n.func) == "res.update")
     ok = len(src) == 1 and len(upd) == 1 and upd[0] in g.after(src[0]) and src[0] not in g.after(upd[0])
+    if not ok and len(upd) == 1 and not src:
+        # the automatic `src` placed in the dictionary literal that `res` starts from: still before the update
+        init = g.nodes(lambda s: isinstance(s, ast.Assign) and unparse(s.targets[0]) == "res" and
+                       any(isinstance(d, ast.Dict) and any(isinstance(k, ast.Constant) and k.value == "src" for k in d.keys) for d in ast.walk(s.value)))
+        ok = len(init) == 1 and upd[0] in g.after(init[0]) and init[0] not in g.after(upd[0])
     ctx.check(ok, R, "_make_attributes:user-attrs-win", "automatic src is set first, user attributes override it",
               "user-supplied attributes must be applied after the automatic `src`, so that an attribute literally named "
               "`src` keeps its given value", f"{RTLIL}:{f.lineno}")
